@@ -32,6 +32,19 @@ def seeded_block():
     return "\n".join(out)
 
 
+def preserving_block():
+    out = ["| property-preserving change | property | what differs mechanically (abridged) | checks run with it applied | result |", "|---|---|---|---|---|"]
+    for mpath in sorted(glob.glob(os.path.join(HERE, "preserving", "*", "meta.json"))):
+        m = json.load(open(mpath))
+        evs = m.get("evaluations") or []
+        last = {}
+        for e in evs:
+            last[e["cmd"].split()[1]] = e
+        res = "; ".join(f"{c}: {'clean' if e.get('clean') else 'ALARM ' + ', '.join(e.get('signatures', [])[:2])}" for c, e in sorted(last.items()))
+        out.append(f"| {m['name']} | {m['property']} | {m.get('differs_short', '')} | {', '.join(sorted(last))} | {res or 'not evaluated'} |")
+    return "\n".join(out)
+
+
 def mutants_block():
     p = os.path.join(HERE, "mutants", "results.txt")
     if not os.path.exists(p):
@@ -56,7 +69,7 @@ def evidence_block():
     return "\n".join(out)
 
 
-BLOCKS = {"findings": findings_block, "seeded": seeded_block, "mutants": mutants_block, "evidence": evidence_block}
+BLOCKS = {"findings": findings_block, "seeded": seeded_block, "preserving": preserving_block, "mutants": mutants_block, "evidence": evidence_block}
 
 
 def main():
